@@ -325,7 +325,8 @@ pub fn ljsum(out: &str, thorough: bool, seed: u64) {
     let mut bound_states = 0usize;
     let mut two_site = 0usize;
     for k in 0..count {
-        let gname = GROUPS[k % GROUPS.len()];
+        // now and then the operations of p2mg on an oblique cell (copies that are not equivalent)
+        let gname = if k % 11 == 10 { "p2mgM" } else { GROUPS[k % GROUPS.len()] };
         let g = group(gname);
         let (sname, shape) = &shapes[(k / GROUPS.len()) % shapes.len()];
         let two = k % 5 == 4;
@@ -377,6 +378,12 @@ pub fn ljsum(out: &str, thorough: bool, seed: u64) {
         // order 0.01 is below the rounding noise of the sum: most of the budget goes to states of
         // moderate energy (bound crystals and mildly repulsive ones)
         if expect.is_finite() && expect.abs() > 1e3 && k % 8 != 0 {
+            continue;
+        }
+        // particles that all but coincide (energies beyond 1e9: distances below 0.2 sigma): the
+        // twelfth power of a distance that is itself a rounded difference of coordinates is not a
+        // number two summations can be expected to agree on
+        if expect.is_finite() && expect.abs() > 1e9 {
             continue;
         }
         checked += 1;
